@@ -10,6 +10,10 @@
       groupdockey    document-valued group keys equal up to field order are merged
       addtosetboolnum  `$addToSet` merges `true` with `1`, `false` with `0` (Python `==`)
       lookupboolnum  `$lookup` joins `true` to `1` (Python `==`)
+      bucketcrosstype / bucketboolnum / bucketdefaulttype / bucketdupbounds /
+      bucketdefaultinside / bucketgroupbyconst   `$bucket` (Spec/PipelineExt.lean, `bucketReasons`):
+                     Python `<` / `>=` / `sorted` standing in for the BSON order and for the
+                     server's option checks
     repaired in the library since (classes deleted, theorems strengthened; the witnesses stay
     regression cases of the check): countempty, groupnullempty, groupfalsyid, addtosetfalsy,
     firstmissing, minmaxtypes, sumbool, unwindindex, unwindindexparent, multiopstage, neglimit,
